@@ -238,20 +238,23 @@ std::string body_C04(Ctx& c, CaseIn& in) {
 
 // Exhaustive prefix sweeps: every one of the 256 byte values at the prefix position of every
 // field of the valid encoding of a few values per type, with a payload of the matching width.
-static size_t sweep_values(Ctx& c, const TypeOps& t) { auto vs = variants(*t.schema); return std::min<size_t>(vs.size(), c.thorough ? 12 : 4); }
+static size_t sweep_values(Ctx& c, const TypeOps& t) { auto vs = variants(*t.schema); return std::min<size_t>(vs.size(), c.thorough ? 12 : 3); }
 static Value sweep_value(Ctx& c, const TypeOps& t, size_t vi) {
   auto vs = variants(*t.schema); size_t nvals = sweep_values(c, t);
   const Value& v0 = vs[(vi * std::max<size_t>(1, vs.size() / nvals)) % vs.size()];
   auto o = t.make(); o->assign(v0); return o->get();
 }
 // One sweep case: value #vi of type t, field #fi of its encoding, prefix byte b.
+static std::string sweep_case(Ctx& c, const TypeOps& t, const Value& v, const Encoded& base, const std::map<int64_t, int64_t>& ht, size_t fi, int b, bool* interesting);
 std::string sweep_one(Ctx& c, const TypeOps& t, size_t vi, size_t fi, int b, bool* interesting) {
   Value v = sweep_value(c, t, vi);
   Encoded base = ref_encode(*t.schema, v);
+  return sweep_case(c, t, v, base, default_handle_table(*t.schema, v), fi, b, interesting);
+}
+static std::string sweep_case(Ctx& c, const TypeOps& t, const Value& v, const Encoded& base, const std::map<int64_t, int64_t>& ht, size_t fi, int b, bool* interesting) {
   if (fi >= base.fields.size()) return "";
   const Field& f = base.fields[fi];
   if (f.kind == F::EntrySize) return "";   // entry sizes are swept by the size-delta mutation
-  auto ht = default_handle_table(*t.schema, v);
   EncodeOpts eo; Override ov;
   if (f.kind == F::Prefix) { ov.what = Override::SetPrefixByte; ov.value = (uint64_t)b; }
   else {
@@ -276,12 +279,14 @@ void extra_C04(Ctx& c) {
     bool failed = false;
     for (size_t vi = 0; vi < nvals && !failed; vi++) {
       Value v = sweep_value(c, t, vi);
-      size_t nf = std::min<size_t>(ref_encode(*t.schema, v).fields.size(), c.thorough ? 64 : 24);
+      Encoded base = ref_encode(*t.schema, v);
+      auto ht = default_handle_table(*t.schema, v);
+      size_t nf = std::min<size_t>(base.fields.size(), c.thorough ? 64 : 24);
       for (size_t fi = 0; fi < nf && !failed; fi++) {
         for (int b = 0; b < 256 && !failed; b++) {
           bool in = false;
           c.rep.current_case = "prop=C04 type=" + t.name + " src=sweep:" + std::to_string(vi) + ":" + std::to_string(fi) + ":" + std::to_string(b);
-          std::string m = sweep_one(c, t, vi, fi, b, &in);
+          std::string m = sweep_case(c, t, v, base, ht, fi, b, &in);
           if (!m.empty()) { c.rep.fail(m, c.rep.current_case, "C04|" + t.name + "|" + m.substr(0, m.find(':'))); failed = true; }
         }
         c.rep.label("prefix-sweep-fields");
